@@ -10,6 +10,8 @@ from ..core import AnalysisError, FUNC, call_attr, calls_in, const, dotted, is_c
 from .c01 import field_rules
 
 EXPLANATION = [
+    'C18.wire-fields-init: every dataclass field that carries wire metadata is a constructor argument (no init=False): parsers build objects with cls(**fields) and serialisers read the instance dict.',
+    'C18.class-identity: no packet class registered by a decorator inherits from another registered class without stating its own code (the registering decorators derive code and name only when the class does not have them yet, so the inherited ones would be used and the parent replaced in the table).',
     'C18.bytes-of-number: no single-argument bytes() call is applied to a flag (an attribute or parameter declared bool, a comparison, a boolean expression): bytes(True) is one zero byte, not the byte 0x01.',
     'C18.division-guard: in the codec modules a divisor (or modulus) read from the packet being parsed is tested on the way to the division: a count of 0, which the matching serialiser writes for an empty list, cannot raise ZeroDivisionError.',
     'C18.decorator-order: every PDU class above HCI that is a dataclass and is registered by a decorator is made a dataclass first, so the registration decorator builds its field table from the declared fields.',
@@ -791,7 +793,19 @@ def bytes_of_number_rule(ctx):
     bytes_of_number(ctx, 'C18.bytes-of-number', ['bumble.l2cap', 'bumble.att', 'bumble.smp', 'bumble.sdp', 'bumble.rfcomm', 'bumble.avdtp', 'bumble.avctp', 'bumble.avrcp', 'bumble.a2dp', 'bumble.core', 'bumble.rtp'])
 
 
+def class_identity_rule(ctx):
+    from ..generic_rules import registered_class_identity
+    registered_class_identity(ctx, 'C18.class-identity', ['bumble.l2cap', 'bumble.att', 'bumble.smp', 'bumble.sdp', 'bumble.avdtp', 'bumble.avrcp', 'bumble.avc', 'bumble.lmp', 'bumble.ll'])
+
+
+def wire_fields_init_rule(ctx):
+    from ..generic_rules import wire_fields_init
+    wire_fields_init(ctx, 'C18.wire-fields-init', ['bumble.l2cap', 'bumble.att', 'bumble.smp', 'bumble.sdp', 'bumble.avdtp', 'bumble.avrcp', 'bumble.lmp'])
+
+
 RULES = [
+    ('C18.wire-fields-init', wire_fields_init_rule),
+    ('C18.class-identity', class_identity_rule),
     ('C18.bytes-of-number', bytes_of_number_rule),
     ('C18.division-guard', division_guard_rule),
     ('C18.decorator-order', decorator_order_rule),
